@@ -190,6 +190,7 @@ def correspondence(ctx):
         paths.append(p)
         metas.append((p, name, seed, ops))
     probe_mixed_blocks(ctx, nsgenv, WL, WR)
+    probe_many_relabellings(ctx, nsgenv, WL, WR)
     probe_block_boundaries(ctx, nsgenv, WL, WR)
     from props import dynprobe
     dynprobe.run(ctx, "C13")
@@ -297,6 +298,57 @@ def probe_block_boundaries(ctx, nsgenv, WL, WR):
     ctx.coverage["block_boundary_probe"] = stats
 
 
+def probe_many_relabellings(ctx, nsgenv, WL, WR):
+    """Depth: dozens of CONSECUTIVE re-labellings of the shipped scenarios at the world level (each one starts from the labels the
+    previous one produced - a label at the edge of a number's digit length, of a block or of a network is only ever met this way).
+    Every one must be produced (no give-up) and must be a valid re-labelling: private stays private, the distances between the
+    private networks are kept, addresses are one-to-one and lie in their networks."""
+    import netaddr
+    n = 150 if ctx.tier == "thorough" else 60
+    stats = {"worlds": 0, "relabellings": 0}
+    for scenario in ("scenario1_small", "three_nets"):
+        for seed in ((42, 7, 3) if ctx.tier == "thorough" else (42, 7)):
+            cfg = nsgenv.base_config(scenario, use_dynamic_addresses=True)
+            replay = {"kind": "many_relabellings", "scenario": scenario, "seed": seed}
+            try:
+                drv = WR.start_world(cfg, seed=seed)
+            except Exception as e:
+                ctx.stage_errors.append((f"many relabellings start {scenario}", f"{type(e).__name__}: {e}"))
+                continue
+            stats["worlds"] += 1
+            try:
+                g = drv.g
+                priv0 = sorted((netaddr.IPNetwork(str(k)).value, k.mask) for k in g._networks if netaddr.IPNetwork(str(k)).ip.is_ipv4_private_use())
+                dist0 = [x[0] - priv0[0][0] for x in priv0]
+                for r in range(1, n + 1):
+                    try:
+                        WL.run_coro(g.reset())
+                    except BaseException as e:
+                        ctx.violations.append({"key": "a re-labelling of a shipped scenario is not produced",
+                                               "what": f"{scenario}, seed {seed}: consecutive reset number {r} with dynamic addresses ended with {type(e).__name__}({e}) - no re-labelling of the networks {sorted(str(k) for k in g._networks)} was produced",
+                                               "replay": replay})
+                        break
+                    stats["relabellings"] += 1
+                    priv = sorted((netaddr.IPNetwork(str(k)).value, k.mask) for k in g._networks if netaddr.IPNetwork(str(k)).ip.is_ipv4_private_use())
+                    bad = None
+                    if len(priv) != len(priv0) or [x[0] - priv[0][0] for x in priv] != dist0:
+                        bad = f"private networks {sorted(str(k) for k in g._networks)} do not keep kind or distances"
+                    ips = [str(i) for i in g._ip_to_hostname]
+                    if bad is None and len(set(ips)) != len(ips):
+                        bad = "two hosts share an address"
+                    if bad is None:
+                        for net, members in g._networks.items():
+                            if any(str(i) not in netaddr.IPNetwork(str(net)) for i in members):
+                                bad = f"an address of {net} lies outside it"
+                                break
+                    if bad:
+                        ctx.violations.append({"key": "an invalid re-labelling after many resets", "what": f"{scenario}, seed {seed}, consecutive reset number {r}: {bad}", "replay": replay})
+                        break
+            finally:
+                drv.close()
+    ctx.coverage["many_relabellings_probe"] = stats
+
+
 def probe_mixed_blocks(ctx, nsgenv, WL, WR):
     """A topology whose private networks lie in two different RFC 1918 blocks."""
     import cyst.api.configuration as C
@@ -318,6 +370,15 @@ def probe_mixed_blocks(ctx, nsgenv, WL, WR):
 
 
 def replay(ctx, payload):
+    if payload.get("kind") == "many_relabellings":
+        nsgenv, WL, WR = WC._imports()
+        c2 = CK.Ctx("C13", "quick", 1)
+        probe_many_relabellings(c2, nsgenv, WL, WR)
+        for v in c2.violations:
+            print(v["what"])
+        if c2.violations:
+            print("VIOLATION property=C13 replay=(this file)")
+        return 1 if c2.violations else 0
     if payload.get("kind") == "dynamic_join_probe":
         from props import dynprobe
         c2 = CK.Ctx("C13", "quick", 1)
